@@ -42,6 +42,19 @@ def cohort_for(kind, seed, variant):
     if variant == "unsorted_ids":
         ren = {i: n for i, n in zip(sorted(df["ID"].unique()), ["9", "10", "8", "100", "b"])}
         df["ID"] = df["ID"].map(ren)
+    if variant == "nan_subject":
+        # one subject whose scores are all missing (kept: drop_full_nan=False) - for the joint model it was seen early and its
+        # event is observed before the population time-shift (its only information is the event)
+        first = df["ID"].iloc[0]
+        rows = df["ID"] == first
+        ycols = [c for c in df.columns if c.startswith("Y")]
+        df.loc[rows, ycols] = np.nan
+        if dkw.get("events"):
+            df.loc[rows, "TIME"] = df.loc[rows, "TIME"] - 15.0
+            df.loc[rows, "EVENT_TIME"] = float(df.loc[rows, "TIME"].max()) + 0.2
+            df.loc[rows, "EVENT_BOOL"] = True if df["EVENT_BOOL"].dtype == bool else 1
+        kw = dict(drop_full_nan=False)
+        return df, (Data.from_dataframe(df, data_type="joint", **kw) if dkw.get("events") else Data.from_dataframe(df, **kw))
     return df, (Data.from_dataframe(df, data_type="joint") if dkw.get("events") else Data.from_dataframe(df))
 
 
